@@ -120,6 +120,7 @@ def run(chk, ctx):
     if spec is not None:
         for kind, rx in (("DecInt", "[1-9][0-9]*"), ("HexInt", "0[xX][0-9a-fA-F]+"), ("BinInt", "0[bB][01]+"), ("OctInt", "0[0-7]*")):
             chk.require(spec.same_language(kind, rx), "LEX", "LEX:literal:%s" % kind, "language of %s == %s" % (kind, rx), "the pattern of %s (%s) does not denote %s" % (kind, [p["src"] for p in spec.patterns(kind)], rx))
+    c08.parse_number_rule(chk, P)
     pn = P.body(c08.PN)
     if pn is not None:
         radix = set()
